@@ -10,7 +10,7 @@ META = {
     "level": "proof",
     "design_ref": "§5 C15",
     "technique": "Coq proof (structural induction, refinement to a reference splitter, round-trip law) + extracted-model vs real LinesCodec differential run",
-    "level_text": "Theorems C15_spec/C15_eof/C15_run/C15_roundtrip/C15_invalid_*/C15_encode/C15_ref_split hold for ALL byte strings "
+    "level_text": "Theorems C15_spec/C15_eof/C15_eof_all/C15_run/C15_roundtrip/C15_invalid_*/C15_encode/C15_ref_split hold for ALL byte strings "
                   "(no length bound) on a Gallina model of lines.rs; the model is tied to the code by running the extracted model and the "
                   "real LinesCodec on every byte string of length <= 7 over {a,CR,LF,C3,A9,FF} (exhaustive) plus random longer strings and "
                   "encode/decode round trips; any difference in decoded items is a failing input.",
@@ -88,4 +88,11 @@ def streams(ctx):
     s2 = Stream("c15enc", "c15enc", seqs, monitor=lambda c, i, m: i.split("|")[:2] == m.split("|")[:2],
                 nontrivial=lambda c, m: c != "", shrink=shrink_tokens(","),
                 describe="encode then decode: all sequences of <= 2 and %d random sequences of <= 3 valid strings of length <= 3 (%d strings)" % (n3, len(strs)))
-    return [s1, s2]
+    # decode_eof alone, repeatedly, on buffers that still hold complete lines (Theorem C15_eof_all)
+    L3 = 6
+    eofs = ["".join(t) for n in range(0, L3 + 1) for t in itertools.product(ALPHA, repeat=n)] + rnd[:nrand // 4]
+    s3 = Stream("c15eof", "c15eof", eofs, monitor=lambda c, i, m: i.split("|")[:1] == m.split("|")[:1],
+                nontrivial=lambda c, m: "0a" in [c[i:i + 2] for i in range(0, len(c), 2)], shrink=shrink_hex,
+                describe="decode_eof only, until None: exhaustive over %d strings of length <= %d, and %d random strings"
+                         % (len(eofs) - nrand // 4, L3, nrand // 4))
+    return [s1, s2, s3]
